@@ -15,8 +15,9 @@ ENT_SIM = {"quick": [dict(module="MC_Ent.tla", cfg="MC_Ent_sim.cfg", num=40, dep
            "thorough": [dict(module="MC_Ent.tla", cfg="MC_Ent_sim.cfg", num=600, depth=160, procs=12)]}
 
 
-REG_MC = {"quick": [dict(module="MC_Reg.tla", cfg="MC_Reg_quick.cfg", workers=16, timeout=600)],
-          "thorough": [dict(module="MC_Reg.tla", cfg="MC_Reg_full.cfg", workers=16, timeout=3000)]}
+# MC_Reg_two.cfg: exploration from two registrations per module (two owners) - what concerns one must not touch the other
+REG_MC = {"quick": [dict(module="MC_Reg.tla", cfg="MC_Reg_quick.cfg", workers=16, timeout=600), dict(module="MC_Reg.tla", cfg="MC_Reg_two.cfg", workers=16, timeout=600)],
+          "thorough": [dict(module="MC_Reg.tla", cfg="MC_Reg_full.cfg", workers=16, timeout=3000), dict(module="MC_Reg.tla", cfg="MC_Reg_two.cfg", workers=16, timeout=600)]}
 REG_SIM = {"quick": [dict(module="MC_Reg.tla", cfg="MC_Reg_sim.cfg", num=40, depth=150, procs=4)],
            "thorough": [dict(module="MC_Reg.tla", cfg="MC_Reg_sim.cfg", num=600, depth=200, procs=12)]}
 STR_MC = {"quick": [dict(module="MC_Str.tla", cfg="MC_Str_quick.cfg", workers=16, timeout=600)],
@@ -228,6 +229,40 @@ def c15_custom(pid, tier, plan, scr, hbin, specdir):
         cov["export_import_round_trips"] += n
     violations, known_hits = classify(pid, recs, cov, scr, specdir)
     return cov, violations, known_hits
+
+
+def decision_patterns(hbin, scr, sd):
+    """Every sequence of three decisions on one raised order by three signers (MinAccepts 2) in which a signer decides more
+    than once - the repeat in either spelling of the address -, then the tally, the minting block and two more: quorum
+    must come from DISTINCT signers (C02 MintedForAnOrderTheRulesDidNotAccept, C03 OncePerSigner / L2)."""
+    import itertools
+    import vlib
+    g = {"accts": ["A1", "A2", "A3", "A4"], "bal": {a: {"nund": 100, "other": 100} for a in ("A1", "A2", "A3", "A4")},
+         "ent": {"signers": ["A1", "A2", "A4"], "min": 2, "limit": 3, "denom": "nund", "wl": ["A3"], "startId": 1},
+         "wrk": {"feeReg": 24, "feeRec": 2, "feePur": 3, "denom": "nund", "def": 2, "max": 4, "startId": 1},
+         "bcn": {"feeReg": 20, "feeRec": 1, "feePur": 5, "denom": "nund", "def": 2, "max": 4, "startId": 1},
+         "str": {"feeNum": 1, "feeDen": 100}}
+    BB, EB, CM = {"a": "BeginBlock", "dt": 1000}, {"a": "EndBlock"}, {"a": "Commit"}
+    behs = []
+    choices = [(s_, d) for s_ in ("A1", "A2", "A4") for d in ("accept", "reject")]
+    k = 0
+    for seq in itertools.product(choices, repeat=3):
+        signers = [x[0] for x in seq]
+        if len(set(signers)) == 3:
+            continue
+        b = [{"a": "InitChain", "g": g}, BB, {"a": "DeliverTx", "msgs": [{"t": "Raise", "pur": "A3", "amt": 9, "denom": "nund"}]}]
+        seen = set()
+        for s_, d in seq:
+            m = {"t": "Decide", "signer": s_, "id": 1, "d": d}
+            if s_ in seen and k % 2 == 0:
+                m["enc"] = "upper"
+            seen.add(s_)
+            b.append({"a": "DeliverTx", "msgs": [m]})
+        b += [EB, CM] + [BB, EB, CM] * 4
+        behs.append(b)
+        k += 1
+    rec, _ = vlib.record_behaviours(hbin, behs, scr, name="decision-patterns")
+    return rec, len(behs)
 
 
 def extreme_amounts(hbin, scr, sd):
@@ -543,14 +578,14 @@ def c18_custom(pid, tier, plan, scr, hbin, specdir):
 
 
 PLANS = {
-    "C03": dict(mc=both(ENT_MC, ENT_GHOST), sim=ENT_SIM, random=rnd("ent", (300, 3), (2000, 20)),
+    "C03": dict(mc=both(ENT_MC, ENT_GHOST), extra={"quick": [decision_patterns], "thorough": [decision_patterns]}, sim=ENT_SIM, random=rnd("ent", (300, 3), (2000, 20)),
                 rule="TLC exhaustive on MC_Ent (all interleavings of raise/decide/whitelist/gov param change/time advance in small scope); behaviours = TLC-simulated schedules + seeded random histories executed on the real app; non-trivial = a recorded step (one ABCI call) validated against Chain!Step and all C03 monitors",
                 assumptions=COMMON_ASSUME),
     "C04": dict(ledger=True, mc=both(FEE_MC, ENT_MC), sim=both(FEE_SIM, ENT_SIM), sweep=FEE_SWEEP, random=rnd("ent", (300, 3), (2000, 20)),
                 rule="TLC exhaustive on MC_Fee (orders completing, then fee-paying registry txs with every relation of locked/liquid to the fee, exact/higher/missing/multi-denomination fees, bad signatures, k-th message failing, sends to escrow); view = locked/spent books, totals, escrow balance, registered module invariant", assumptions=COMMON_ASSUME),
     "C05": dict(ledger=True, mc=both(FEE_MC, FEE_GRANT), sim=FEE_SIM, sweep=FEE_SWEEP, random=both(rnd("ent", (300, 4), (2000, 20)), rnd("mix", (200, 2), (1500, 10))),
                 rule="as C04 plus vesting purchasers in the random histories; monitors: locked drops only by min(fee, locked) in a registry tx of the payer and equals the spent increase; completion never raises spendable", assumptions=COMMON_ASSUME),
-    "C02": dict(ledger=True, mc=both(FEE_MC, ENT_MC), sim=both(FEE_SIM, ENT_SIM), sweep=both(FEE_SWEEP, AUTH_SWEEP), random=rnd("mix", (400, 3), (2500, 20)),
+    "C02": dict(ledger=True, mc=both(FEE_MC, ENT_MC), extra={"quick": [decision_patterns], "thorough": [decision_patterns]}, sim=both(FEE_SIM, ENT_SIM), sweep=both(FEE_SWEEP, AUTH_SWEEP), random=rnd("mix", (400, 3), (2500, 20)),
                 rule="supply and sum of ALL balances (iteration incl. unmodelled accounts) after every step of mixed histories; mint/burn events of every ABCI response equal the supply delta; supply changes only in BeginBlock by the completed orders' amounts", assumptions=COMMON_ASSUME),
     "C13": dict(mc=both(REG_MC, STR_MC, ENT_MC, GRP_MC), sweep=AUTH_SWEEP, random=rnd("mix", (300, 2), (1500, 10)),
                 rule="TLC breadth-first sweep MC_Auth: every message type x every account as signer x every account as named address in three encodings (foreign key, proper signature, Exec wrapper) from a prepared state; each behaviour replayed on the real app; state digest before/after compared", assumptions=COMMON_ASSUME),
